@@ -481,6 +481,10 @@ class ProblemsSim:
                     kw[p] = _prob(rng)
             if rng.random() < 0.4:
                 kw["noise_terms"] = rng.choice([0, 1, 2, 3, 5])
+                if rng.random() < 0.25:
+                    # at and just below the capacity of the 24-letter alphabet
+                    like = 1 if kw["num_terms"] == 2 else max(2, int(kw["num_terms"] * kw.get("inner_terms_scaling", 0.3)))
+                    kw["noise_terms"] = max(0, 24 - like - rng.choice([0, 0, 1, 2]))
             return kw
         if name == "gen_combine_terms_in_place":
             r = rng.random()
